@@ -491,6 +491,19 @@ class SymB:
 
     __ror__ = __or__
 
+    # ordering of truth values (False < True): numpy's argmax / max / sort on arrays of comparison results; decided by forking
+    def __gt__(self, o):
+        return bool(self) > bool(o)
+
+    def __lt__(self, o):
+        return bool(self) < bool(o)
+
+    def __ge__(self, o):
+        return bool(self) >= bool(o)
+
+    def __le__(self, o):
+        return bool(self) <= bool(o)
+
     def all(self, *a, **k):
         return self
 
@@ -1545,15 +1558,86 @@ def circle_reduce(S, p):
     return p
 
 
+def fixed_bits(S, polys):
+    """0/1 variables (Session.bit) occurring in `polys` whose value is determined by the path condition: {index: 0 or 1}.
+    Decided by z3 on the path condition and the bit constraints alone (sound: an implied value may be substituted)."""
+    bits = getattr(S, "_bits", None)
+    if not bits or not S.pathcond:
+        return {}
+    named = set()
+    for e in S.pathcond:
+        named |= _z3_var_names(e)
+    cand = set()
+    for p in polys:
+        cand |= {i for i in P.variables(p) if i in bits and S.V.names[i] in named}
+    if not cand:
+        return {}
+    cache = S.__dict__.setdefault("_fixed_bits_cache", {})
+    key = len(S.pathcond)
+    out = {}
+    sol = None
+    for i in sorted(cand):
+        if (key, i) in cache:
+            if cache[(key, i)] is not None:
+                out[i] = cache[(key, i)]
+            continue
+        if sol is None:
+            sol = z3.Solver()
+            sol.set("timeout", 5000)
+            sol.add(*S.pathcond)
+            for j in bits:
+                zv = S.zvar(j)
+                sol.add(z3.Or(zv == 0, zv == 1))
+        zv = S.zvar(i)
+        val = None
+        if str(sol.check(zv == 1)) == "unsat":
+            val = 0
+        elif str(sol.check(zv == 0)) == "unsat":
+            val = 1
+        cache[(key, i)] = val
+        if val is not None:
+            out[i] = val
+    return out
+
+
+def substitute_fixed_bits(S, xs):
+    """xs: list of SymC / numbers; outcome bits whose value is implied by the path condition are replaced by that value"""
+    polys = [x.p for x in xs if isinstance(x, SymC)]
+    fixed = fixed_bits(S, polys)
+    if not fixed:
+        return list(xs), {}
+    out = []
+    for x in xs:
+        if isinstance(x, SymC):
+            p = x.p
+            for i, val in fixed.items():
+                if P.degree_in(p, i):
+                    p = P.subs_var(p, i, P.const(val), S.V)
+            x = SymC(S, p)
+        out.append(x)
+    return out, {S.V.names[i]: v for i, v in fixed.items()}
+
+
 def solve_nonzero(S, polys, extra=(), timeout_s=30, want_model=True, tol=None, pre_reduce=False):
     """Is there an assignment satisfying the session constraints (+path condition +extra) under which
     some polynomial in `polys` is non-zero (|.|>tol if tol)?  unsat => identity proved."""
     t0 = time.time()
     nz = [p for p in polys if p]
     note = ""
+    fixed = fixed_bits(S, nz)
+    if fixed:
+        nz2 = []
+        for p in nz:
+            for i, val in fixed.items():
+                if P.degree_in(p, i):
+                    p = P.subs_var(p, i, P.const(val), S.V)
+            if p:
+                nz2.append(p)
+        nz = nz2
+        note = f"{len(fixed)} outcome bits fixed by the path condition substituted "
     if pre_reduce:
         nz = [q for q in (circle_reduce(S, p) for p in nz) if q]
-        note = "circle-normalised"
+        note += "circle-normalised"
     used = set()
     for p in nz:
         used |= P.variables(p)
@@ -1584,7 +1668,11 @@ def solve_nonzero(S, polys, extra=(), timeout_s=30, want_model=True, tol=None, p
     if r == "unsat":
         return Result("unsat", dt, note=note)
     if r == "sat":
-        return Result("sat", dt, model=model_floats(S, sol.model()) if want_model else None, note=note)
+        mdl = model_floats(S, sol.model()) if want_model else None
+        if mdl is not None and fixed:
+            for i, val in fixed.items():
+                mdl.setdefault("vars", {})[S.V.names[i]] = float(val)
+        return Result("sat", dt, model=mdl, note=note)
     return Result("unknown", dt, note=note + " " + str(sol.reason_unknown()))
 
 
@@ -1607,6 +1695,29 @@ def _z3_var_names(e):
 def prove_zero(S, polys, extra=(), timeout_s=30, tol=None):
     """unsat/sat/unknown with the fallback chain: raw -> circle-normalised."""
     tot = 0.0
+    if S.atoms and 0 < sum(len(p) for p in polys) <= 200000:
+        # cheap first step: s^2 -> 1 - c^2 is a canonical form modulo the circle relations; an identity that reduces to the zero
+        # polynomial needs no solver search (solve_nonzero then asserts `false` and z3 answers unsat immediately)
+        t0 = time.time()
+        fx = fixed_bits(S, [p for p in polys if p])
+        allzero = True
+        for p in polys:
+            for i, val in fx.items():
+                if p and P.degree_in(p, i):
+                    p = P.subs_var(p, i, P.const(val), S.V)
+            if p and circle_reduce(S, p):
+                allzero = False
+                break
+        tot += time.time() - t0
+        if allzero:
+            r = solve_nonzero(S, polys, extra, timeout_s=timeout_s, tol=tol, pre_reduce=True)
+            r.time_s += tot
+            return r
+    if sum(len(p) for p in polys) > 2000:  # large identities: the circle-normalised form first (usually syntactically zero), raw only as a fallback
+        r = solve_nonzero(S, polys, extra, timeout_s=timeout_s, tol=tol, pre_reduce=True)
+        if r.status != "unknown":
+            return r
+        tot += r.time_s
     r = solve_nonzero(S, polys, extra, timeout_s=min(timeout_s, max(5, timeout_s / 3)), tol=tol)
     tot += r.time_s
     if r.status == "unknown":
